@@ -38,7 +38,7 @@ fn normalise(r: &[u8]) -> (String, Vec<u8>) {
             if stat != 0 {
                 out.extend_from_slice(&b[24.min(b.len())..]);
             } else {
-                out.push((b.len() > 24) as u8);
+                out.extend_from_slice(&mask_portmap_body(&b[24.min(b.len())..]));
             }
             ("rpc".into(), out)
         }
@@ -198,4 +198,110 @@ pub fn check(a: &Analysis, _aux: &mut Aux, t: &mut Tally) -> Vec<Violation> {
         }
     }
     v
+}
+
+/// Structure of a successful portmapper result with the exempt fields (port numbers, universal
+/// addresses, netids - and the XDR length words that go with them) masked. Anything that does
+/// not parse as one of the known result shapes is kept verbatim.
+fn mask_portmap_body(b: &[u8]) -> Vec<u8> {
+    let w = |i: usize| -> Option<u32> {
+        if i + 4 <= b.len() {
+            Some(u32::from_be_bytes([b[i], b[i + 1], b[i + 2], b[i + 3]]))
+        } else {
+            None
+        }
+    };
+    // XDR string at i: returns the index after it (content and padding must fit; padding must be zero)
+    let xstr = |i: usize| -> Option<usize> {
+        let l = w(i)? as usize;
+        let pad = (4 - l % 4) % 4;
+        let end = i + 4 + l + pad;
+        if end > b.len() || b[i + 4 + l..end].iter().any(|x| *x != 0) {
+            return None;
+        }
+        Some(end)
+    };
+    if b.is_empty() {
+        return b"<void>".to_vec();
+    }
+    if b.len() == 4 {
+        return b"<port>".to_vec();
+    }
+    if xstr(0) == Some(b.len()) {
+        return b"<uaddr>".to_vec();
+    }
+    // list of mappings (v2) or rpcb entries (v3/v4)
+    for v2 in [true, false] {
+        let mut i = 0;
+        let mut out = Vec::new();
+        let mut ok = true;
+        loop {
+            match w(i) {
+                Some(0) => {
+                    i += 4;
+                    break;
+                }
+                Some(1) => {}
+                _ => {
+                    ok = false;
+                    break;
+                }
+            }
+            let (prog, vers) = match (w(i + 4), w(i + 8)) {
+                (Some(p), Some(v)) => (p, v),
+                _ => {
+                    ok = false;
+                    break;
+                }
+            };
+            out.extend_from_slice(&prog.to_be_bytes());
+            out.extend_from_slice(&vers.to_be_bytes());
+            i += 12;
+            if v2 {
+                match w(i) {
+                    Some(prot) => out.extend_from_slice(&prot.to_be_bytes()),
+                    None => {
+                        ok = false;
+                        break;
+                    }
+                }
+                if w(i + 4).is_none() {
+                    ok = false;
+                    break;
+                }
+                out.extend_from_slice(b"<port>");
+                i += 8;
+            } else {
+                // netid, universal address (both exempt), owner (kept)
+                let a = match xstr(i) {
+                    Some(a) => a,
+                    None => {
+                        ok = false;
+                        break;
+                    }
+                };
+                let c = match xstr(a) {
+                    Some(c) => c,
+                    None => {
+                        ok = false;
+                        break;
+                    }
+                };
+                let e = match xstr(c) {
+                    Some(e) => e,
+                    None => {
+                        ok = false;
+                        break;
+                    }
+                };
+                out.extend_from_slice(b"<netid><uaddr>");
+                out.extend_from_slice(&b[c..e]);
+                i = e;
+            }
+        }
+        if ok && i == b.len() {
+            return out;
+        }
+    }
+    b.to_vec()
 }
